@@ -74,7 +74,7 @@ pub fn run(ctx: &Ctx) -> Report {
     Report {
         acc,
         exhaustive: true,
-        rule: "all sequences over {OPT, SOFTWARE, USERNAME, MI, MI256/32, MI256/16, FP} up to the depth, reference-serialised with correct HMACs/CRC, x {request, success}; only those the reference decoder accepts are judged (distinct_nontrivial); plus messages whose hidden MESSAGE-INTEGRITY (behind MI-SHA256) carries a sealing-attribute header at every 4-aligned offset of its value; tail replacement is covered because every alternative tail of a prefix is itself a sequence of the space".into(),
+        rule: "all sequences over {OPT, SOFTWARE, USERNAME, MI, MI256/32, MI256/16, FP} up to the depth, reference-serialised with correct HMACs/CRC, x {request, success}; only those the reference decoder accepts are judged (distinct_nontrivial); the iterated sequence is also taken through nth / skip / step_by / fold / last / count / size_hint and must be the same; plus messages whose hidden MESSAGE-INTEGRITY (behind MI-SHA256) carries a sealing-attribute header at every 4-aligned offset of its value; tail replacement is covered because every alternative tail of a prefix is itself a sequence of the space".into(),
         bounds: json!({"sequences": n_sk, "depth": depth, "classes": 2}),
         assumptions: vec!["parser acceptance itself is C02's business: buffers the reference refuses are skipped here".into()],
         ..Default::default()
@@ -117,6 +117,11 @@ pub fn judge(case: &Case, acc: &mut Acc) {
     let (got2, _) = real::iterate(&msg, 0);
     if got2 != got {
         viol!(acc, P, "second-iteration-differs", case, "iterating the same message a second time exposes other attributes", show(&got), show(&got2));
+    }
+    for (name, seq) in real::iterate_variants(&msg) {
+        if seq != got {
+            viol!(acc, P, "iterator-method-differs", case, format!("another method of the attribute iterator exposes other attributes than next(): {name}"), show(&got), show(&seq));
+        }
     }
     if !after.is_empty() {
         viol!(acc, P, "iterator-not-fused", case, "the attribute iterator yields again after returning None", "None forever", show(&after));
